@@ -14,6 +14,7 @@ from engine import pat
 from engine.util import own_nodes, calls_with_nodes, where
 
 RULES = {
+    "R-05.12": "base32 text written without padding is padded back to the base32 quantum before decoding: NSEC3.from_text pads the next-hash to a multiple of 8 characters (RFC 4648), with the same modulus at the test and at the fill",
     "R-05.11": "an integer field printed through an enum's to_text (rcode, rdatatype, algorithm, scheme: ValueError outside 0..maximum) was bounded by the constructor to that enum's range: the field is built with the same enum's make(), or with an _as_uintN no wider than the enum's maximum",
     "R-05.10": "style keywords reach real style fields: every keyword BaseStyle.from_keywords translates a legacy to_text() keyword into (chunksize, separator) is a declared field of a style class, so building the style cannot raise TypeError for a documented option",
     "R-05.9": "a field printed in chunks (hex/base64 broken at the style's chunk size with the style's separator) is the LAST field of the text form, where the reader concatenates the remaining tokens; anywhere else the chunks parse as separate fields",
@@ -815,6 +816,20 @@ def run(model, rep, tier):
                                   f"self.{fld} is built by `{how}` (values up to {bound}) but printed with {E.name}.to_text, which raises ValueError above {emax}: "
                                   "a record accepted from the wire cannot be turned into text", stmt=f"enum-text {fld}")
     rep.floor("R-05.11", n_en, 5)
+    # ---------------------------------------------------------------- R-05.12
+    n3 = model.func("dns.rdtypes.ANY.NSEC3.NSEC3.from_text")
+    e12 = pat.Env()
+    hit12 = pat.find(n3.node, "if len(__next) % ___M != 0:\n    __next += ___pad * (___N - len(__next) % ___K)", e12)
+    if hit12 is None:
+        rep.blind("R-05.12", n3.qualname, where(n3, n3.node), "the padding step `if len(x) % M != 0: x += b'=' * (N - len(x) % K)` before b32decode was not found", stmt="base32-quantum")
+    else:
+        try:
+            M, N, K = (int(model.const(n3.module, ast.parse(e12["___" + k], mode="eval").body)) for k in "MNK")
+            rep.check(M == N == K == 8 and pat.has_expr(n3.node, "base64.b32decode(...)"), "R-05.12", n3.qualname, where(n3, hit12[0][hit12[1]]), "padded to a multiple of 8 characters before b32decode",
+                      f"the base32 text is padded with modulus {M}/{N}/{K}, not 8: next-hash values whose length is 1 or 2 (mod 5) octets (e.g. 16, 32) are written by to_text but refused by from_text "
+                      "('Incorrect padding')", stmt="base32-quantum")
+        except (AnalysisError, KeyError, ValueError) as e:
+            rep.blind("R-05.12", n3.qualname, where(n3, n3.node), f"padding constants not foldable: {e}", stmt="base32-quantum")
     rep.meta["explanation"] = (
         "Interval evaluation of every struct.pack argument in ~60 wire encoders against the ranges established by constructor validators (field table read from __init__), a local scan of every text "
         "producer for operations that can raise on validated data, folded escape-table comparison for quoted strings, and a per-field check that octet-wise printing is paired with octet-wise parsing. "
@@ -822,6 +837,8 @@ def run(model, rep, tier):
 
 
 WITNESSES = [
+    {"id": "c05-nsec3-padding-modulus-4", "rule": "R-05.12", "file": "dns/rdtypes/ANY/NSEC3.py", "expect": "fires",
+     "old": "        if len(next) % 8 != 0:\n            next += b\"=\" * (8 - len(next) % 8)", "new": "        if len(next) % 4 != 0:\n            next += b\"=\" * (4 - len(next) % 4)"},
     {"id": "c05-sshfp-reader-single-token", "rule": "R-05.9", "file": "dns/rdtypes/ANY/SSHFP.py", "expect": "fires",
      "old": "        fingerprint = tok.concatenate_remaining_identifiers().encode()\n", "new": "        fingerprint = tok.get_identifier().encode()\n"},
     {"id": "c05-tsig-error-wider-than-rcode", "rule": "R-05.11", "file": "dns/rdtypes/ANY/TSIG.py", "expect": "fires",
